@@ -2,6 +2,7 @@ import operator
 from typing import Any, Callable, Optional, Union
 
 from sqlalchemy.sql import functions
+from sqlalchemy.sql.elements import Grouping
 from sqlalchemy.sql.expression import (
     BinaryExpression,
     BindParameter,
@@ -18,6 +19,7 @@ from sqlalchemy.sql.expression import (
     null,
     or_,
     true,
+    type_coerce,
 )
 from sqlalchemy.types import Date, Time
 
@@ -112,6 +114,17 @@ class _CommonVisitors(visitor.NodeVisitor):
         left = self.visit(node.left)
         right = self.visit(node.right)
         op = self.visit(node.op)
+
+        if (
+            isinstance(node.right, ast.BinOp)
+            and node.right.op == node.op
+            and isinstance(right, ClauseElement)
+        ):
+            # SQLAlchemy treats `+` and `*` as associative and would flatten
+            # `a + (b + c)` into `a + b + c`, which is not the same thing for
+            # machine numbers (overflow, rounding). An explicit grouping, hidden
+            # from the flattening behind a no-op type coercion, keeps it.
+            right = type_coerce(Grouping(right), right.type)
 
         return op(left, right)
 
